@@ -406,13 +406,12 @@ fn ki5b_hcrc() {
 
 /// zlib header (RFC 1950): accepted iff CM = 8, CINFO <= 7 and within the configured window, (CMF*256+FLG) % 31 == 0;
 /// FDICT leads to DictId/Dict and NeedDict with the big-endian id; gzip magic only when gzip decoding is enabled.
-/// The number of input bytes is concrete per instance (0..=6), everything else symbolic.
-fn head_instance(n_in: usize) {
+/// The number of input bytes (0..=6) and the wrap mode are concrete per instance (R10/R11: with a symbolic wrap the decoder
+/// mode after `Head` is symbolic among the zlib and the gzip chains and CBMC needs more than 40 GB), everything else symbolic.
+fn head_instance(n_in: usize, wrap: u8) {
     let input: [u8; 6] = kani::any();
     let mut out = [0u8; 4];
     let mut win = [0u8; 8 + 64];
-    let wrap: u8 = kani::any();
-    kani::assume(wrap >= 1 && wrap <= 7 && wrap != 4);
     let mut state = typed_state(&mut win, wrap, Mode::Head);
     let wbits: u8 = kani::any();
     kani::assume(wbits == 0 || (wbits >= 8 && wbits <= 15));
@@ -454,14 +453,15 @@ fn head_instance(n_in: usize) {
             assert!(state.checksum == u32::from_be_bytes([input[2], input[3], input[4], input[5]]));
         }
     }
-    kani::cover!(n_in < 6 || rc == ReturnCode::NeedDict);
-    kani::cover!(n_in < 2 || (matches!(mode, Mode::Type) && wbits == 0));
-    kani::cover!(n_in < 2 || (rc == ReturnCode::DataError && ((cmf as u32) * 256 + flg as u32) % 31 == 0 && cmf & 0x0f == 8), "window size rejection");
+    kani::cover!(n_in < 6 || wrap & 1 == 0 || rc == ReturnCode::NeedDict);
+    kani::cover!(n_in < 2 || wrap & 1 == 0 || (matches!(mode, Mode::Type) && wbits == 0));
+    kani::cover!(n_in < 2 || wrap & 1 == 0 || (rc == ReturnCode::DataError && ((cmf as u32) * 256 + flg as u32) % 31 == 0 && cmf & 0x0f == 8), "window size rejection");
+    kani::cover!(n_in < 2 || wrap & 2 == 0 || is_gzip_magic, "gzip member recognised");
     core::mem::forget(state);
 }
 
 macro_rules! head_harness {
-    ($name:ident, $n_in:expr) => {
+    ($name:ident, $n_in:expr, $wrap:expr) => {
         #[kani::proof]
         #[kani::unwind(6)]
         #[kani::stub(crate::inflate::inftrees::inflate_table, stub_table_unreachable)]
@@ -474,16 +474,82 @@ macro_rules! head_harness {
         #[kani::stub(crate::inflate::writer::Writer::extend_from_window, stub_efw_unreachable)]
         #[kani::stub(<[u16]>::fill, stub_fill_unreachable)]
         fn $name() {
-            head_instance($n_in);
+            head_instance($n_in, $wrap);
         }
     };
 }
-head_harness!(ki5a_head_n0, 0);
-head_harness!(ki5a_head_n1, 1);
-head_harness!(ki5a_head_n2, 2);
-head_harness!(ki5a_head_n3, 3);
-head_harness!(ki5a_head_n5, 5);
-head_harness!(ki5a_head_n6, 6);
+head_harness!(ki5a_head_w1_n0, 0, 1);
+head_harness!(ki5a_head_w1_n1, 1, 1);
+head_harness!(ki5a_head_w1_n2, 2, 1);
+head_harness!(ki5a_head_w2_n0, 0, 2);
+head_harness!(ki5a_head_w2_n1, 1, 2);
+head_harness!(ki5a_head_w2_n2, 2, 2);
+head_harness!(ki5a_head_w3_n0, 0, 3);
+head_harness!(ki5a_head_w3_n1, 1, 3);
+head_harness!(ki5a_head_w3_n2, 2, 3);
+head_harness!(ki5a_head_w5_n0, 0, 5);
+head_harness!(ki5a_head_w5_n1, 1, 5);
+head_harness!(ki5a_head_w5_n2, 2, 5);
+head_harness!(ki5a_head_w6_n0, 0, 6);
+head_harness!(ki5a_head_w6_n1, 1, 6);
+head_harness!(ki5a_head_w6_n2, 2, 6);
+head_harness!(ki5a_head_w7_n0, 0, 7);
+head_harness!(ki5a_head_w7_n1, 1, 7);
+head_harness!(ki5a_head_w7_n2, 2, 7);
+
+/// The chain after a zlib header that announces a preset dictionary: DictId reads the 4-byte identifier (big endian), Dict
+/// reports NeedDict with it until a dictionary has been installed, then the running Adler-32 restarts at 1 and decoding goes
+/// on with the first block.  Starts where `ki5a_head_w*_n2` ends (Mode::DictId with an empty register).
+fn dictid_instance(n_in: usize, have_dict: bool) {
+    let input: [u8; 4] = kani::any();
+    let mut out = [0u8; 4];
+    let mut win = [0u8; 8 + 64];
+    let wrap: u8 = if kani::any() { 1 } else { 5 };
+    let mut state = typed_state(&mut win, wrap, Mode::DictId);
+    state.flags.update(Flags::HAVE_DICT, have_dict);
+    state.flush = InflateFlush::Block;
+    state.checksum = kani::any();
+    unsafe { state.bit_reader.update_slice(input.as_ptr(), n_in) };
+    state.in_available = n_in;
+    state.writer = unsafe { Writer::new_uninit(out.as_mut_ptr(), 4) };
+    let rc = state.dispatch();
+    let used = consumed(&state, input.as_ptr());
+    assert!(used == n_in && state.writer.len() == 0);
+    if n_in < 4 {
+        assert!(rc == ReturnCode::Ok && matches!(state.mode, Mode::DictId));
+    } else if !have_dict {
+        assert!(rc == ReturnCode::NeedDict && matches!(state.mode, Mode::Dict));
+        assert!(state.checksum == u32::from_be_bytes(input), "the identifier the caller must match, big endian");
+        assert!(state.bit_reader.bits_in_buffer() == 0);
+    } else {
+        // dictionary already installed (inflateSetDictionary before the header was complete is not possible for zlib
+        // streams; this is the re-entry after the caller installed it): checksum restarts, first block header next
+        assert!(rc == ReturnCode::Ok && matches!(state.mode, Mode::Type) && state.checksum == 1);
+    }
+    kani::cover!(input[0] == 0x12 && input[3] == 0x34);
+    core::mem::forget(state);
+}
+macro_rules! dictid_harness {
+    ($name:ident, $n_in:expr, $have:expr) => {
+        #[kani::proof]
+        #[kani::unwind(6)]
+        #[kani::stub(crate::inflate::inftrees::inflate_table, stub_table_unreachable)]
+        #[kani::stub(core::fmt::write, stub_fmt_write)]
+        #[kani::stub(core::panicking::panic_nounwind, stub_pn)]
+        #[kani::stub(core::panicking::panic_nounwind_fmt, stub_pnf)]
+        #[kani::stub(crate::crc32::crc32, stub_crc_nondet)]
+        #[kani::stub(crate::inflate::State::len_and_friends, stub_laf_suspends)]
+        #[kani::stub(crate::inflate::writer::Writer::copy_match, stub_copy_match_unreachable)]
+        #[kani::stub(crate::inflate::writer::Writer::extend_from_window, stub_efw_unreachable)]
+        #[kani::stub(<[u16]>::fill, stub_fill_unreachable)]
+        fn $name() {
+            dictid_instance($n_in, $have);
+        }
+    };
+}
+dictid_harness!(ki5a_dictid_n3, 3, false);
+dictid_harness!(ki5a_dictid_n4, 4, false);
+dictid_harness!(ki5a_dictid_n4_have, 4, true);
 
 /// inflate::set_dictionary: state check, Adler-32 identifier check, window load, HAVE_DICT; then Dict -> Type.
 #[kani::proof]
